@@ -220,4 +220,66 @@ def run(ck):
           key='PROV-lookup|per-instance')
     from . import shared
     shared.truthy_zero(ck, [SB, VS, 'vermouth/rcsu/go_utils.py', 'vermouth/rcsu/go_pipeline.py'])
+    # ------------------------------------------------------------ SIB: every producer of the contact list uses the layout the consumer unpacks
+    cmm = ck.index.mod('vermouth/rcsu/contact_map.py')
+    rgm_ = cmm.func('read_go_map')
+    gc = cmm.func('_get_contacts')
+    for f_ in (rgm_, gc):
+        ck.analysed(cmm, f_)
+    want_names = [ra, ca, rb, cb] if len(sinks) == 1 else ['resIDA', 'chainA', 'resIDB', 'chainB']
+    # reader: (int(resid col), chain col, int(resid col), chain col); columns per the documented header R ID I1 AA C I(PDB) I2 AA C I(PDB) DCA OV CSU oCSU rCSU ...
+    app = [c for c in walk_local(rgm_) if isinstance(c, ast.Call) and call_attr(c) == 'append' and u(c.func.value) == 'contacts']
+    ok = len(app) == 1 and u(app[0].args[0]) == '(int(tokens[5]), tokens[4], int(tokens[9]), tokens[8])'
+    ck.ob('SIB-contact-layout', cmm.loc(rgm_), ok, 'read_go_map stores a contact as (resid A, chain A, resid B, chain B) = columns (5, 4, 9, 8) of an "R" line -- the order '
+          'contact_selector unpacks ({})'.format(', '.join(want_names)), key='SIB-contact-layout|reader')
+    if len(app) == 1:
+        found = stmts_with_env(rgm_, lambda s_: isinstance(s_, ast.Expr) and s_.value is app[0])
+        names = {}
+        for k in flow.atoms_of(found[0][1]) if found else []:
+            t = ' '.join(map(str, k))
+            if k[0] == 'Eq' and t.endswith('[11]') and "'1'" in k[1:]:
+                names[k] = 'OV'
+            elif k[0] == 'Eq' and t.endswith('[11]') and "'0'" in k[1:]:
+                names[k] = 'NOOV'
+            elif k[0] == 'Eq' and t.endswith('[14]') and "'1'" in k[1:]:
+                names[k] = 'RCSU'
+            elif k[0] == 'Eq' and t.endswith('[0]') and "'R'" in k[1:]:
+                names[k] = 'ISR'
+            elif k[0] == 'Eq' and 'len(' in t and '18' in k[1:]:
+                names[k] = 'N18'
+            elif k[0] == 'Eq' and 'len(' in t and '0' in k[1:]:
+                names[k] = 'EMPTY'
+        okf = bool(found) and flow.equivalent(flow.rename(found[0][1], names), flow.parse_formula('ISR and N18 and (OV or (NOOV and RCSU))'),
+                                              flow.parse_formula('not (OV and NOOV) and not (EMPTY and N18)'))[0]
+        ck.ob('SIB-contact-layout', cmm.loc(rgm_), okf, 'read_go_map keeps a line exactly when it is an 18-column "R" line that is an overlap contact, or no overlap but a net rCSU contact '
+              '(same criterion as the built-in generator)', key='SIB-contact-layout|reader-filter')
+    gapp = [c for c in walk_local(gc) if isinstance(c, ast.Call) and call_attr(c) == 'append' and u(c.func.value) == 'contacts_list']
+    ok = len(gapp) == 1 and u(gapp[0].args[0]) == "(int(G.nodes[a]['resid']), G.nodes[a]['chain'], int(G.nodes[b]['resid']), G.nodes[b]['chain'])"
+    ck.ob('SIB-contact-layout', cmm.loc(gc), ok, 'the built-in generator stores a contact in the same layout, from the residue attributes of the two residues of that contact',
+          key='SIB-contact-layout|generator')
+    if len(gapp) == 1:
+        found = stmts_with_env(gc, lambda s_: isinstance(s_, ast.Expr) and s_.value is gapp[0])
+        names = {}
+        for k in flow.atoms_of(found[0][1]) if found else []:
+            t = ' '.join(map(str, k))
+            if k[0] == 'Eq' and '1' in k[1:] and any(x.startswith('overlaps[') for x in k[1:]):
+                names[k] = 'OV'
+            elif k[0] == 'Eq' and '0' in k[1:] and any(x.startswith('overlaps[') for x in k[1:]):
+                names[k] = 'NOOV'
+            elif k[0] == 'Gt' and k[2] == '0' and k[1].replace(' ', '') == 'stabilisers[i1,i2]-destabilisers[i1,i2]':
+                names[k] = 'RCSU'
+            elif k[0] == 'Gt' and k[2] == '0' and k[1].startswith('overlaps['):
+                names[k] = 'ANY_O'
+            elif k[0] == 'Gt' and k[2] == '0' and k[1].startswith('contacts['):
+                names[k] = 'ANY_C'
+            elif k[0] == 'Eq' and set(k[1:]) == {'i1', 'i2'}:
+                names[k] = 'SELF'
+        okf = bool(found) and flow.implies(flow.parse_formula('(OV or (NOOV and RCSU))'), flow.parse_formula('OV or NOOV'))[0] and \
+            flow.equivalent(flow.rename(found[0][1], names), flow.parse_formula('not SELF and (ANY_O or ANY_C) and (OV or (NOOV and RCSU))'))[0]
+        ck.ob('SIB-contact-layout', cmm.loc(gc), okf, 'the generator keeps a residue pair exactly when it overlaps, or does not overlap but has a net rCSU contact', key='SIB-contact-layout|generator-filter')
+    gcm = cmm.cls('GenerateContactMap')
+    grs = method(gcm, 'run_system')
+    ok = grs is not None and 'for molecule in system.molecules:' in u(grs) and "system.go_params['go_map'].append(contacts)" in u(grs) and 'contacts = self.run_molecule(molecule)' in u(grs)
+    ck.ob('SIB-contact-layout', cmm.loc(gcm), ok and "system.go_params['go_map'].append(contacts)" in u(rgm_),
+          'both producers append one contact list to go_params["go_map"]; the consumer reads entry [0]', key='SIB-contact-layout|store')
     ck.assume('residue lookup by (chain, input resid) and float equality of the two listed directions are not decided')
